@@ -7,6 +7,7 @@ import collections.abc
 import datetime as dtm
 import ipaddress
 import math
+import os
 import pathlib
 import re
 import typing
@@ -22,6 +23,10 @@ SCALAR_HINT = {
     "None": None, "Any": typing.Any, "bytes": bytes, "bytearray": bytearray, "date": dtm.date, "time": dtm.time,
     "datetime": dtm.datetime, "timedelta": dtm.timedelta, "UUID": uuid.UUID, "Path": pathlib.Path,
     "IPv4Address": ipaddress.IPv4Address, "Pattern": re.Pattern,
+    "object": object, "LiteralString": typing.LiteralString, "ByteString": typing.ByteString,
+    "PurePath": pathlib.PurePath, "PurePosixPath": pathlib.PurePosixPath, "PosixPath": pathlib.PosixPath, "PureWindowsPath": pathlib.PureWindowsPath,
+    "PathLike": os.PathLike[str], "IPv6Address": ipaddress.IPv6Address, "IPv4Network": ipaddress.IPv4Network, "IPv6Network": ipaddress.IPv6Network,
+    "IPv4Interface": ipaddress.IPv4Interface, "IPv6Interface": ipaddress.IPv6Interface,
 }
 ITER_HINT = {
     "list": [typing.List, list], "MutableSequence": [typing.MutableSequence, collections.abc.MutableSequence],
